@@ -112,7 +112,8 @@ CHECKS = {
          "map, token names, entity tables agree; flags are distinct bits, aggregates use declared bits; the C sources use only the Unicode "
          "character-class macros; for ALL strings the Python lookup "
          "(lower() in TABLE) and the C lookup (ASCII strcmp) agree. NOT proved: equality of the token streams: checked by differential "
-         "execution on table-driven inputs (every scheme/tag/entity/brace-run form) and the generated stream.",
+         "execution on table-driven inputs (every scheme/tag/entity/brace-run form) and the generated stream, on new tokenizer instances and "
+         "on instances that have tokenized up to five other inputs before (a difference is reported with the history).",
     design_ref="DESIGN.md section 5, C04",
     note="Trusted: the table generator (import + #define/array parsing, fail-closed); stream equality is testing. No axioms.",
     technique="Coq proof over generated constant tables (vm_compute) + lookup equivalence lemma + differential execution of both tokenizers (testing)"),
@@ -146,8 +147,8 @@ CHECKS = {
          "regenerated from /repo on every run: every self.<field> of Tokenizer/Builder/Parser vs the fields assigned at the start of "
          "tokenize()/build(); the members of the C Tokenizer struct vs what Tokenizer_tokenize resets before Tokenizer_parse. Tied to the "
          "code additionally by histories on one Tokenizer/CTokenizer/Parser object with a BaseException injected at the k-th token "
-         "construction or the k-th _push/_pop/_emit/_emit_text, followed by calls compared with a fresh object's and a check for "
-         "leftover frames, in crash-isolating children.",
+         "construction, token attribute read, Builder token or the k-th _push/_pop/_emit/_emit_text, followed by calls compared with a "
+         "fresh object's and a check for leftover frames, in crash-isolating children; the injected exception must surface as itself.",
     design_ref="DESIGN.md section 5, C06",
     note="Trusted: hypothesis that a method body reaches instance state only through self.<field> (Python attribute semantics); the "
          "AST / C-text scanner; for C, memory of an abandoned call being released is a C07 matter. No axioms.",
@@ -170,7 +171,8 @@ CHECKS = {
          "unchanged); walks concatenate. The model of __children__ / __str__ per class is tied to /repo by comparing the model's walk "
          "(kinds and text lengths, computed from the REAL token stream) with filter() on parsed trees. Identity-based clauses (each "
          "node once, typed filters, non-recursive filter, contains, index(recursive), get_ancestors, get_parent, get_tree) are "
-         "checked by the oracle against an independent attribute walk for every node of every generated tree.",
+         "checked by the oracle against an independent attribute walk for every node of every generated tree; a node the walk finds and "
+         "filter() does not must lie in a Wikicode its parent does not render.",
     design_ref="DESIGN.md section 5, C09",
     note="Trusted: Coq kernel; extraction + driver; the hand-written per-class children/str model (tied by correspondence). No axioms.",
     technique="Coq proof over the node-tree model (children cover rendering; walk = node :: children walks) + correspondence + navigation oracle"),
@@ -190,7 +192,7 @@ CHECKS = {
     text="Theorems (Coq): every property setter of every node class, regenerated from /repo's source on every run as an effect program, "
          "is atomic - on no execution path (any call may raise) does a store to the object precede a possible raise; all setters the "
          "property names are present; over every sequence of value/quotes assignments an attribute whose value has whitespace has "
-         "quotes. Oracle on the implementation: every settable attribute x valid/invalid catalogues x value types x sequences: "
+         "quotes; the keys can_hide_key accepts are the positive integers without leading zeros (regenerated pattern). Oracle on the implementation: every settable attribute x valid/invalid catalogues x value types x sequences: "
          "rejection leaves vars() unchanged, acceptance renders the assigned text and nested markup is navigable, whitespace values "
          "are rendered quoted. 'Renders the assigned text exactly' rests on C01's round trip (validated, not proved).",
     design_ref="DESIGN.md section 5, C18",
@@ -203,7 +205,7 @@ CHECKS = {
          "parameter is named i); add makes has() true; remove (without keep_field) makes the name disappear and leaves the names of "
          "all other parameters unchanged and in order - removing a positional parameter makes the following ones explicit; "
          "keep_field keeps the name. The model follows remove/_should_remove/_fix_dependendent_params/add with the library's own "
-         "key-visibility choice and is tied to /repo by comparing (stripped name, showkey) lists after every call. The re-parse "
+         "key-visibility choice (incl. showing the key for a value whose '=' cannot be escaped) and is tied to /repo by comparing (stripped name, showkey) lists after every call. The re-parse "
          "clause (render, parse, compare names/values/visibility; get() finds the value) is checked by the oracle, not proved.",
     design_ref="DESIGN.md section 5, C10",
     note="Trusted: names are plain text; showkey=/before=/after= not passed; values opaque in the model; the re-parse clause is testing. No axioms.",
@@ -217,8 +219,8 @@ CHECKS = {
          "run (template matcher, fail-closed) and the extracted model is run against the real textbuffer.c through a ctypes shim. NOT proved: "
          "reference counting, frees, the AVL tree, undefined behaviour elsewhere. Those are decided by an AddressSanitizer+UBSan build "
          "(PYTHONMALLOC=malloc) over table inputs, adversarial families, grammar documents in all three string widths and calls aborted at "
-         "every k-th token construction followed by reuse, and by libc mallinfo2 / reference counts over windows of repeated completed and "
-         "aborted calls.",
+         "every k-th token construction / attribute read followed by reuse, by libc mallinfo2 / reference counts over windows of repeated "
+         "completed and aborted calls, and by a run under PYTHONMALLOC=debug (allocator-family mismatches).",
     design_ref="DESIGN.md section 5, C07",
     note="Trusted: gcc's sanitizers; mallinfo2; the template matcher and shim. Whole-extension memory safety is execution on explored inputs, "
          "not proof. No axioms.",
